@@ -36,7 +36,7 @@ def units():
 LEVEL = "proof"
 BOUNDED = {"quick": {"timeout_s": 90}, "thorough": {"timeout_s": 900}}
 TRUSTED_BASE = [
-    "A-EMIT (UNVERIFIED): emitted phase functions keep per-step variables in Python locals and store persistent ones in self.* (storage classes of the name manager are proved under C13)",
+    "A-EMIT (not re-checked by this check): emitted phase functions keep per-step variables in Python locals and store persistent ones in self.*: that every emitted statement refers to a variable through the name manager's name is what C01's translation validation of the templates shows (contracts/c01emit.py), and the storage class of each name (self.* exactly for persistent names) is proved under C13",
     "template extraction as in C01",
     "C08 (only exec_Assign / exec_AssignFunctionCall write the context, the latter only after the call returned) and C04 (a dependent is never run before its dependency was visited) carry the clauses 'old value or a value the program assigns' and 'unchanged if every write depends on the failed call'",
 ]
